@@ -363,7 +363,7 @@ func (vc *VC) zeroOf(t types.Type) Term {
 		return app(name, "mk-"+name, args...)
 	case *types.Array:
 		s := vc.sortOf(t)
-		return raw(fmt.Sprintf("((as const %s) %s)", s, vc.zeroOf(u.Elem()).S), s)
+		return vc.constArray(s, vc.zeroOf(u.Elem()))
 	}
 	return vc.freshConst("zero", vc.sortOf(t))
 }
@@ -917,4 +917,17 @@ func sortedKeys(m map[string]Term) []string {
 	}
 	sort.Strings(ks)
 	return ks
+}
+
+// constArray: the array of the given sort whose every element is v. cvc5 accepts "as const"
+// only for value terms, so for elements of an uninterpreted sort (the empty string constant,
+// structs holding one) a named array with a quantified definition is used instead.
+func (vc *VC) constArray(sort string, v Term) Term {
+	if !strings.Contains(v.S, "gs.lit") {
+		return raw(fmt.Sprintf("((as const %s) %s)", sort, v.S), sort)
+	}
+	name := "carr_" + sanitize(sort)
+	ks, _ := arraySorts(sort)
+	vc.decl("constarr:"+sort, fmt.Sprintf("(declare-const %s %s)\n(assert (forall ((i %s)) (! (= (select %s i) %s) :pattern ((select %s i)))))", name, sort, ks, name, v.S, name))
+	return raw(name, sort)
 }
